@@ -12,6 +12,7 @@ and trailing-byte streams, each completed by the usual driver loop, then random 
 import MinizProof.Gen.All
 import MinizProof.Lemmas.Finite
 import MinizProof.Lemmas.InflStream
+import MinizProof.Lemmas.InflBytes
 set_option maxRecDepth 1000000
 open Fin'
 namespace C13
@@ -277,5 +278,202 @@ example : inflate (St.fresh 2) 10 100 0 [⟨tDone, 7, 5⟩] =
     .ok { dictOfs := 5, dictAvail := 0, firstCall := false, hasFlushed := false, lastStatus := tDone, fmt := 2 }
         ⟨7, 5, rStreamEnd⟩ [(10, 0, dictSize, flagIgnoreAdler + flagHasMoreInput)] := by decide
 example : Inv2 (St.fresh 0) := fresh_inv 0
+
+/-! ### The wrapper WITH its bytes, end to end (Model/InflBytes, Lemmas/InflBytes)
+
+`Model.InflB.inflateNone` is `inflate()` for calls that do not ask to finish, over the decoder model
+itself (`Model.Core.decompress`, the 32 KiB window an array, bytes handed to the caller); op `IFB` of
+the driver replays real `inflate()` sessions through it on every run. `runInfl` is a caller: each
+call is offered what the previous one left unconsumed followed by a new chunk, with any amount of
+output room. -/
+open Model.Core Model.InflB Spec in
+/-- the flag word `inflate()` builds for a RAW stream on a call that does not ask to finish
+    (`format_flags(Raw) | TINFL_FLAG_HAS_MORE_INPUT` = ignore-adler + more-input) has the ring theory
+    of raw streams; its flat twin is the same word with the non-wrapping flag -/
+theorem raw_wrapper_flags (res : Inflated) :
+    RingTheory (Model.Infl.flagIgnoreAdler + Model.Infl.flagHasMoreInput)
+      (fun z => inflateSpec #[] 32768 z 0 = .accept res) res.out :=
+  ringTheory_of_flat (rawFlatTheory 70 (by decide) (by decide) (by decide) res)
+    ⟨by decide, by decide, by decide, by decide, by decide, by decide, by decide⟩ (by decide) (by decide)
+
+open Model.Core Model.InflB Spec in
+/-- … and the word it builds for a ZLIB stream (`PARSE_ZLIB_HEADER | COMPUTE_ADLER32 | HAS_MORE_INPUT`)
+    has the ring theory of zlib streams -/
+theorem zlib_wrapper_flags (zr : ZInflated) :
+    RingTheory (Model.Infl.flagParseZlib + Model.Infl.flagComputeAdler + Model.Infl.flagHasMoreInput)
+      (fun z => zlibSpec #[] 32768 z true = .accept zr) zr.inner.out :=
+  ringTheory_of_flat (zlibFlatTheory 15 (by decide) (by decide) (by decide) zr)
+    ⟨by decide, by decide, by decide, by decide, by decide, by decide, by decide⟩ (by decide) (by decide)
+
+open Model.Core Spec in
+/-- A VALID ZLIB STREAM THROUGH A RING, TO THE END (the zlib counterpart of
+    `C07.valid_stream_through_a_ring_to_the_end`; stated here because it comes out of the same
+    format-independent derivation, `Lemmas/CoreRingTheory`): a ring of `W ≥ 32768` bytes, any
+    chunking (cuts inside header and trailer included), any number of laps, nothing assumed about
+    the run except that the driver went on while calls were suspended. The last call ends in one of
+    four statuses; if that is `Done`, the bytes taken out of the ring after each call, concatenated,
+    are exactly the plaintext of the stream, whatever follows it in the input. -/
+theorem valid_zlib_stream_through_a_ring_to_the_end (flagsR flagsF W : Nat) (hfl : FlagsRF flagsR flagsF) (hbig : 32768 ≤ W)
+    (c : Array UInt8) (cs : List (Array UInt8)) (b : Array UInt8) (oR : Array UInt8) (zr : ZInflated)
+    (hW : oR.size = W) (hg : badGeometry flagsR W 0 = false)
+    (hz : hasFlag flagsR fParseZlib = true) (hstop : hasFlag flagsR fStopOnBlockBoundary = false)
+    (hspec : zlibSpec #[] 32768 (catList (c :: cs) ++ b) true = .accept zr)
+    (hsus : ∀ x ∈ (runRing flagsR W {} oR 0 #[] (c :: cs)).dropLast, suspended x.1)
+    (lastR : Res × Nat) (hlast : (runRing flagsR W {} oR 0 #[] (c :: cs)).getLast? = some lastR) :
+    (lastR.1.status = stDone ∨ lastR.1.status = stHasMoreOutput ∨ lastR.1.status = stNeedsMoreInput ∨
+      lastR.1.status = stFailedCannotMakeProgress) ∧
+    (lastR.1.status = stDone → deliveredRing (runRing flagsR W {} oR 0 #[] (c :: cs)) = zr.inner.out) := by
+  have T := zlibFlatTheory flagsF hfl.flat (by rw [hfl.zlib]; exact hz) (by rw [hfl.stop]; exact hstop) zr
+  obtain ⟨oF, G, _, hst, hdel⟩ := ring_vs_one_flat_call T hfl hbig oR hW hg c cs b hspec hsus lastR hlast 0
+  refine ⟨by rw [← hst]; exact T.never _ b oF G hspec, fun hd => ?_⟩
+  obtain ⟨hw, hb⟩ := T.done _ b oF G hspec (by rw [hst]; exact hd)
+  rw [hdel, hw]
+  have hf1 := decompress_facts {} (catList (c :: cs)) oF 0 G flagsF
+  have hsz : zr.inner.out.size ≤ (decompress {} (catList (c :: cs)) oF 0 G flagsF).out.size := by
+    rw [← hw, hf1.size]; have := hf1.room; omega
+  have := extract_prefix_eq _ zr.inner.out zr.inner.out.size hsz (Nat.le_refl _) hb
+  rw [this]; simp
+
+open Model.Core Model.InflB Spec in
+/-- A VALID RAW STREAM THROUGH `inflate()`, ANY CHUNKING, ANY OUTPUT SIZES, ANY NUMBER OF CALLS
+    (none asking to finish), whatever follows the stream in the input (`b0`), however often the
+    window laps. `Safe` (Lemmas/InflBytes) says of every call up to and including the first that
+    reports stream end: its status is Ok, StreamEnd or — only if it was offered no input at all — a
+    buffer error (never a data error); it consumed no more than it was offered and handed over no
+    more than there was room for; offered input and room it made progress or ended the stream;
+    everything handed over so far is a prefix of the plaintext the reference decoder defines; and
+    when it reports stream end, everything handed over IS that plaintext. Induction over the call
+    sequence with the invariant `WInv`: between calls the wrapper is the ring driver of C07
+    (`Running`: its inner calls are `runRing`'s calls, delivered + pending = what the ring driver
+    delivered) or is draining the tail of a finished stream; the loop never runs out of the fuel the
+    model gives it. -/
+theorem valid_raw_stream_through_inflate (calls : List (Array UInt8 × Nat)) (b0 : Array UInt8) (res : Inflated)
+    (hspec : inflateSpec #[] 32768 (catList (calls.map Prod.fst) ++ b0) 0 = .accept res) :
+    Safe res.out #[] (runInfl (Model.Infl.flagIgnoreAdler + Model.Infl.flagHasMoreInput) WB.fresh #[] calls) := by
+  apply run_safe (raw_wrapper_flags res) b0 calls WB.fresh #[] #[]
+  refine .inl ⟨[], #[], ?_, ?_⟩
+  · have := Running.fresh (Model.Infl.flagIgnoreAdler + Model.Infl.flagHasMoreInput) #[]
+    simpa using this
+  · have : catList (([] : List (Array UInt8)) ++ [#[]]) = #[] := by simp [catList]
+    rw [this, Array.empty_append]; exact hspec
+
+open Model.Core Model.InflB Spec in
+/-- THE SAME FOR A VALID ZLIB STREAM (header, body, Adler-32 trailer; what `inflate()` is mostly used
+    for): any chunking — cuts inside the header or the trailer included —, any output sizes, any
+    number of calls, whatever follows the stream. -/
+theorem valid_zlib_stream_through_inflate (calls : List (Array UInt8 × Nat)) (b0 : Array UInt8) (zr : ZInflated)
+    (hspec : zlibSpec #[] 32768 (catList (calls.map Prod.fst) ++ b0) true = .accept zr) :
+    Safe zr.inner.out #[]
+      (runInfl (Model.Infl.flagParseZlib + Model.Infl.flagComputeAdler + Model.Infl.flagHasMoreInput) WB.fresh #[] calls) := by
+  apply run_safe (zlib_wrapper_flags zr) b0 calls WB.fresh #[] #[]
+  refine .inl ⟨[], #[], ?_, ?_⟩
+  · have := Running.fresh (Model.Infl.flagParseZlib + Model.Infl.flagComputeAdler + Model.Infl.flagHasMoreInput) #[]
+    simpa using this
+  · have : catList (([] : List (Array UInt8)) ++ [#[]]) = #[] := by simp [catList]
+    show zlibSpec #[] 32768 (catList (([] : List (Array UInt8)) ++ [#[]]) ++ (catList (calls.map Prod.fst) ++ b0)) true = .accept zr
+    rw [this, Array.empty_append]; exact hspec
+
+open Model.Core Model.InflB Spec in
+/-- THE FIRST-CALL `Finish` SHORTCUT (`inflate(fresh state, whole input, output, Finish)`, the path
+    `decompress_to_vec`-style one-shot users of the streaming API take): for a valid raw stream with
+    room for its plaintext the call reports stream end and has written exactly the plaintext; with
+    less room it reports a buffer error and the state remembers `Failed` (no later call can succeed). -/
+theorem finish_first_call_raw (z out : Array UInt8) (res : Inflated)
+    (hspec : inflateSpec #[] 32768 z 0 = .accept res) :
+    (res.out.size ≤ out.size → (inflateFinishFirst Model.Infl.flagIgnoreAdler z out).1.status = Model.InflB.rStreamEnd ∧
+      (inflateFinishFirst Model.Infl.flagIgnoreAdler z out).1.out = res.out ∧
+      (inflateFinishFirst Model.Infl.flagIgnoreAdler z out).2 = stDone) ∧
+    (out.size < res.out.size → (inflateFinishFirst Model.Infl.flagIgnoreAdler z out).1.status = Model.InflB.rBuf ∧
+      (inflateFinishFirst Model.Infl.flagIgnoreAdler z out).2 = stFailed) :=
+  finish_first_ok (rawFlatTheory (Model.Infl.flagIgnoreAdler + fNonWrapping) (by decide) (by decide) (by decide) res) z out hspec
+
+open Model.Core Model.InflB Spec in
+/-- … and for a valid zlib stream. -/
+theorem finish_first_call_zlib (z out : Array UInt8) (zr : ZInflated)
+    (hspec : zlibSpec #[] 32768 z true = .accept zr) :
+    (zr.inner.out.size ≤ out.size →
+      (inflateFinishFirst (Model.Infl.flagParseZlib + Model.Infl.flagComputeAdler) z out).1.status = Model.InflB.rStreamEnd ∧
+      (inflateFinishFirst (Model.Infl.flagParseZlib + Model.Infl.flagComputeAdler) z out).1.out = zr.inner.out ∧
+      (inflateFinishFirst (Model.Infl.flagParseZlib + Model.Infl.flagComputeAdler) z out).2 = stDone) ∧
+    (out.size < zr.inner.out.size →
+      (inflateFinishFirst (Model.Infl.flagParseZlib + Model.Infl.flagComputeAdler) z out).1.status = Model.InflB.rBuf ∧
+      (inflateFinishFirst (Model.Infl.flagParseZlib + Model.Infl.flagComputeAdler) z out).2 = stFailed) :=
+  finish_first_ok (zlibFlatTheory (Model.Infl.flagParseZlib + Model.Infl.flagComputeAdler + fNonWrapping) (by decide) (by decide) (by decide) zr) z out hspec
+
+open Model.Core Model.InflB Spec in
+/-- what `Safe` says, spelled out for the first call that reports stream end -/
+theorem safe_stream_end (P : Array UInt8) : ∀ (rs : List (Nat × Nat × Model.InflB.CallRes)) (D : Array UInt8), Model.Core.Safe P D rs →
+    ∀ k, k < rs.length → (∀ j, j < k → (rs[j]?.map (·.2.2.status)) ≠ some Model.InflB.rStreamEnd) →
+      (rs[k]?.map (·.2.2.status)) = some Model.InflB.rStreamEnd →
+      D ++ Model.InflB.delivered (rs.take (k + 1)) = P := by
+  intro rs
+  induction rs with
+  | nil => intro D _ k hk; exact absurd hk (Nat.not_lt_zero _)
+  | cons r rest ih =>
+    intro D hs k hk hbefore hend
+    obtain ⟨n, room, r⟩ := r
+    obtain ⟨_, _, _, _, _, hs2⟩ := hs
+    cases k with
+    | zero =>
+      simp only [List.getElem?_cons_zero, Option.map_some, Option.some.injEq] at hend
+      rw [if_pos hend] at hs2
+      show D ++ Model.InflB.delivered [(n, room, r)] = P
+      rw [Model.InflB.delivered_cons, Model.InflB.delivered_nil, Array.append_empty]; exact hs2
+    | succ k =>
+      have h0 := hbefore 0 (Nat.succ_pos _)
+      simp only [List.getElem?_cons_zero, Option.map_some, ne_eq, Option.some.injEq] at h0
+      rw [if_neg h0] at hs2
+      have := ih (D ++ r.out) hs2 k (by simpa using hk)
+        (fun j hj => by have := hbefore (j + 1) (by omega); simpa using this)
+        (by simpa using hend)
+      rw [← this, List.take_succ_cons, Model.InflB.delivered_cons, Array.append_assoc]
+
+/-- … and for every call before that: no data error, counts within bounds, a prefix of the plaintext. -/
+theorem safe_every_call (P : Array UInt8) : ∀ (rs : List (Nat × Nat × Model.InflB.CallRes)) (D : Array UInt8), Model.Core.Safe P D rs →
+    ∀ k, k < rs.length → (∀ j, j < k → (rs[j]?.map (·.2.2.status)) ≠ some Model.InflB.rStreamEnd) →
+      ∀ n room r, rs[k]? = some (n, room, r) →
+        r.status ≠ Model.InflB.rData ∧ r.consumed ≤ n ∧ r.out.size ≤ room ∧
+        (r.status = Model.InflB.rBuf → n = 0) ∧
+        Model.Core.IsPrefix (D ++ Model.InflB.delivered (rs.take (k + 1))) P := by
+  intro rs
+  induction rs with
+  | nil => intro D _ k hk; exact absurd hk (Nat.not_lt_zero _)
+  | cons r0 rest ih =>
+    intro D hs k hk hbefore n room r hget
+    obtain ⟨n0, room0, r0⟩ := r0
+    obtain ⟨hst, hc, ho, _, hpre, hs2⟩ := hs
+    cases k with
+    | zero =>
+      simp only [List.getElem?_cons_zero, Option.some.injEq, Prod.mk.injEq] at hget
+      obtain ⟨rfl, rfl, rfl⟩ := hget
+      refine ⟨?_, hc, ho, ?_, ?_⟩
+      · rcases hst with h | h | h
+        · rw [h]; decide
+        · rw [h]; decide
+        · rw [h.1]; decide
+      · intro hb
+        rcases hst with h | h | h
+        · rw [h] at hb; exact absurd hb (by decide)
+        · rw [h] at hb; exact absurd hb (by decide)
+        · exact h.2
+      · show Model.Core.IsPrefix (D ++ Model.InflB.delivered [(n0, room0, r0)]) P
+        rw [Model.InflB.delivered_cons, Model.InflB.delivered_nil, Array.append_empty]; exact hpre
+    | succ k =>
+      have h0 := hbefore 0 (Nat.succ_pos _)
+      simp only [List.getElem?_cons_zero, Option.map_some, ne_eq, Option.some.injEq] at h0
+      rw [if_neg h0] at hs2
+      have := ih (D ++ r0.out) hs2 k (by simpa using hk)
+        (fun j hj => by have := hbefore (j + 1) (by omega); simpa using this) n room r (by simpa using hget)
+      rw [List.take_succ_cons, Model.InflB.delivered_cons, ← Array.append_assoc]
+      exact this
+
+-- non-vacuity: a stored block "hi" (final), fed in two calls with one byte of room, then plenty
+example : (Model.InflB.runInfl 66 Model.InflB.WB.fresh #[] [(#[0x01, 0x02, 0x00], 1), (#[0xfd, 0xff, 0x68, 0x69], 1), (#[], 5)]).map
+    (fun r => (r.1, r.2.1, r.2.2.consumed, r.2.2.out, r.2.2.status)) = [(3, 1, 3, #[], 0), (4, 1, 4, #[0x68], 0), (0, 5, 0, #[0x69], 1)] := by decide +kernel
+
+-- the same stream in a zlib wrapper, cut inside the header and inside the trailer
+example : (Model.InflB.runInfl 11 Model.InflB.WB.fresh #[] [(#[0x78], 4), (#[0x9c, 0x01, 0x02, 0x00, 0xfd, 0xff, 0x68, 0x69, 0x01, 0x3b], 1), (#[0x00, 0xd2, 0xaa], 5), (#[], 5)]).map
+    (fun r => (r.1, r.2.1, r.2.2.consumed, r.2.2.out, r.2.2.status)) =
+    [(1, 4, 1, #[], 0), (10, 1, 10, #[0x68], 0), (3, 5, 0, #[0x69], 0), (3, 5, 2, #[], 1)] := by decide +kernel
 
 end C13
